@@ -26,7 +26,7 @@ type driverResult struct {
 	ferr         error
 }
 
-func driverRun(t *testing.T, store int, dir, side string, delta []byte, tick bool) driverResult {
+func driverRun(t *testing.T, store int, dir, side string, delta []byte, tick bool) (driverResult, error) {
 	target := storeName(store)
 	spec := DriverSpec{Store: store, Dir: dir, Target: target, DeltaFile: filepath.Join(side, "delta.bin"),
 		StateOut: filepath.Join(side, "state.bin"), Tick: tick}
@@ -39,7 +39,7 @@ func driverRun(t *testing.T, store int, dir, side string, delta []byte, tick boo
 		t.Fatal(err)
 	}
 	if err := runUnderStrace(specPath, logPath); err != nil {
-		t.Fatal(err)
+		return driverResult{}, err
 	}
 	var res driverResult
 	var err error
@@ -70,7 +70,7 @@ func driverRun(t *testing.T, store int, dir, side string, delta []byte, tick boo
 		res.stateCanon = canonS(ss)
 	}
 	res.final, res.ferr = os.ReadFile(filepath.Join(dir, target))
-	return res
+	return res, nil
 }
 
 func writtenBytes(ops []FsOp) []byte {
@@ -108,7 +108,10 @@ func crashChainCase(t *testing.T, run *vh.Run, r *vh.Rand, c *Case, thorough boo
 	if err := os.WriteFile(filepath.Join(dirA, target), old, 0o644); err != nil {
 		t.Fatal(err)
 	}
-	a := driverRun(t, store, dirA, side, delta, false)
+	a, err := driverRun(t, store, dirA, side, delta, false)
+	if err != nil {
+		t.Fatal(err)
+	}
 	pts := c.Points
 	if len(pts) == 0 {
 		n := len(a.ops)
@@ -157,8 +160,21 @@ func crashChainCase(t *testing.T, run *vh.Run, r *vh.Rand, c *Case, thorough boo
 				leftover = len(files[n])
 			}
 		}
-		b := driverRun(t, store, dirB, sideB, nil, false)
 		one := Case{Kind: "chain", Store: store, InitN: c.InitN, InitS: c.InitS, Steps: c.Steps, Points: []Point{p}}
+		b, err := driverRun(t, store, dirB, sideB, nil, false)
+		if err != nil {
+			// the store does not even start from the directory the crash left behind
+			msg := err.Error()
+			if i := strings.Index(msg, "driver_test.go"); i >= 0 {
+				msg = msg[i:]
+			}
+			if len(msg) > 200 {
+				msg = msg[:200]
+			}
+			run.Violate("crash-image-refused-by-loader", fmt.Sprintf("%s: after a crash at op %d (dir ops kept %d, un-synced bytes kept %v) of a %d-byte snapshot the restart fails: %s",
+				target, p.K, p.DirKeep, p.Keep, len(writtenBytes(a.ops)), msg), one)
+			continue
+		}
 		written := writtenBytes(b.ops)
 		run.Count("chain_leftover_vs_next_snapshot", fmt.Sprintf("%s/leftover>next=%v", target, leftover > len(written)))
 		desc := fmt.Sprintf("%s: snapshot of %d bytes interrupted at op %d (dir ops kept %d, un-synced bytes kept %v) leaving temp files of up to %d bytes; next snapshot of %d bytes completed",
